@@ -27,6 +27,7 @@ LEAN = os.path.join(VERIF, "lean")
 REPO = os.environ.get("VERIF_REPO", "/repo")
 DRIVER = os.path.join(LEAN, ".lake", "build", "bin", "driver")
 TABLES_INFO = {}
+SRC_TIE_INFO = {}      # SOURCE-TIE hook: result of harness/source_tie.py for the property under check
 ALLOWED_AXIOMS = {"propext", "Classical.choice", "Quot.sound"}
 GUARD = "SCECCODE_PYCSEP_VERIF"
 
@@ -100,7 +101,7 @@ def _run(cmd, cwd=None, timeout=3600, env=None):
     return p.returncode, p.stdout
 
 
-def lean_build(extra_targets=()):
+def lean_build(extra_targets=(), prop=None):
     """lake build of library + driver, serialised by a lock (checks may run in parallel)."""
     os.makedirs(os.path.join(LEAN, ".lake"), exist_ok=True)
     lock = open(os.path.join(LEAN, ".lake", "verif.lock"), "w")
@@ -115,7 +116,24 @@ def lean_build(extra_targets=()):
             TABLES_INFO = dict(regenerated=changed, problems=problems)
         except Exception as e:  # extraction failure is not a verdict; the correspondence decides
             TABLES_INFO = dict(regenerated=False, problems=[f"gen_tables crashed: {e}"])
+        # SOURCE-TIE hook (begin): regenerate lean/PycsepVerif/GeneratedSrc.lean from the Python source under test
+        global SRC_TIE_INFO
+        SRC_TIE_INFO = {}
+        try:
+            from . import source_tie
+            source_tie.pre_build(REPO, LEAN)
+        except Exception as e:  # a translator crash is not a verdict; the correspondence decides
+            source_tie = None
+            SRC_TIE_INFO = dict(error=f"source translator crashed: {e!r}")
+        # SOURCE-TIE hook (end)
         rc, out = _run(["lake", "build", "PycsepVerif", "driver", *extra_targets], cwd=LEAN)
+        # SOURCE-TIE hook (begin): re-check `Src.<f>_eq_model` for the functions this property reads
+        if rc == 0 and prop is not None and source_tie is not None:
+            try:
+                SRC_TIE_INFO = source_tie.post_build(prop, LEAN)
+            except Exception as e:
+                SRC_TIE_INFO = dict(error=f"source tie check crashed: {e!r}")
+        # SOURCE-TIE hook (end)
         return rc == 0, out, time.time() - t0
     finally:
         fcntl.flock(lock, fcntl.LOCK_UN)
@@ -438,7 +456,7 @@ def main(argv):
 
 def _main_body(a, prop, seed, mod, run):
     try:
-        ok, out, build_s = lean_build()
+        ok, out, build_s = lean_build(prop=prop)
         if not ok:
             # a broken build is a broken proof obligation only if it concerns this property's modules;
             # otherwise other properties' files are being edited: still refuse (exit 2) rather than guess
@@ -452,11 +470,35 @@ def _main_body(a, prop, seed, mod, run):
                        problems=["lake build failed: " + out[-1500:]], theorems=[])
         else:
             aud = audit(prop, mod.THEOREMS)
+        # SOURCE-TIE hook (begin): a lost source tie is not a violation; the correspondence + oracle below are the
+        # failing-input search, at thorough size when the tie of a function this property reads is lost
+        tie = SRC_TIE_INFO if ok else {}
+        lost = tie.get("lost", [])
+        run_tier = a.tier
+        if lost and a.tier == "quick" and not a.replay and os.environ.get("VERIF_SRC_TIE_ESCALATE", "0") == "1":
+            run_tier = "thorough"
+        if tie:
+            run.extra["source_tie"] = tie.get("functions", {}) or ({"error": tie["error"]} if "error" in tie else {})
+            run.extra["source_tie_info"] = dict(regenerated=tie.get("regenerated"), seconds=tie.get("seconds"),
+                                                generator_tier=run_tier)
+            aud["obligations"] += tie.get("obligations", 0)
+            aud["discharged"] += len(tie.get("proved", []))
+            aud["theorems"] = list(aud.get("theorems", [])) + list(tie.get("proved", []))
+        # SOURCE-TIE hook (end)
         if a.replay:
             payload = json.load(open(a.replay))
             mod.replay(run, payload)
         else:
-            mod.run(run, Rng(seed, prop), a.tier)
+            mod.run(run, Rng(seed, prop), run_tier)
+        # SOURCE-TIE hook (begin): validate translator + prelude (trusted) on the translatable functions; report lost ties
+        if tie.get("functions") and not a.replay:
+            from . import src_tie, py2lean
+            names = [t["lean"] for t in py2lean.TARGETS if t["func"] in tie["functions"]
+                     and not tie["functions"][t["func"]].startswith("untranslatable")]
+            src_tie.run_src_tie(run, Rng(seed, prop + "/srctie"), a.tier, prop, names)
+        for fn_, why_ in lost:
+            print(f"SOURCE-TIE-LOST property={prop} function={fn_} {why_}")
+        # SOURCE-TIE hook (end)
         if a.tier == "thorough" and aud["ok"]:
             ok2, out2, s2 = leanchecker(prop)
             run.extra["leanchecker"] = dict(ok=ok2, seconds=round(s2, 1))
